@@ -35,5 +35,17 @@ def recursive_across_modules():
     return got != ref
 
 
+def error_path_repeated_name():
+    core.setup_path()
+    import asn1tools
+    s = asn1tools.compile_string('M DEFINITIONS AUTOMATIC TAGS ::= BEGIN A ::= SEQUENCE { n A OPTIONAL, d OCTET STRING (SIZE (3)) } END')
+    v = {'n': {'n': {'d': b'12'}, 'd': b'123'}, 'd': b'123'}
+    try:
+        s.encode('A', v, check_constraints=True)
+    except asn1tools.ConstraintsError as e:
+        return not str(e).startswith('A.n.n.d: ')
+    return True
+
+
 if __name__ == '__main__':
     sys.exit(1 if globals()[sys.argv[1]]() else 0)
